@@ -13,8 +13,8 @@ using namespace mpt;
 
 enum { OP_ID, OP_ARM, OP_REPLY, OP_DEFER, OP_DREPLY, OP_DRELEASE, OP_ADDREF, OP_UNREF, OP_NEWCTX, OP_REQ, OP_DELIVER, OP_SERVE, OP_FLUSH, OP_DREPLY2, OP_SYNC };
 static const char *const OPS[] = {"ID", "ARM", "REPLY", "DEFER", "DEFERRED_REPLY", "RELEASE_HANDLE", "ADDREF_CTX", "UNREF_CTX", "NEW_CTX", "REQUEST", "DELIVER", "SERVE", "FLUSH", "LATE_REPLY", "SYNC", 0};
-enum { FL_NONE, FL_ALLOC, FL_REJECT, FL_SHORT, FL_EAGAIN };
-static const char *const FAULTS[] = {"none", "allocfail", "reject", "short", "eagain", 0};
+enum { FL_NONE, FL_ALLOC, FL_REJECT, FL_SHORT, FL_EAGAIN, FL_DROP, FL_DUP, FL_SENDFAIL };
+static const char *const FAULTS[] = {"none", "allocfail", "reject", "short", "eagain", "drop", "duplicate", "sendfail", 0};
 
 struct Req { uint64_t id; unsigned width; int accepted = 0; int sends = 0; bool transport_lost = false; bool closed = false; };
 struct Transport {
@@ -51,6 +51,11 @@ static int transport_send(void *ptr, const reply_data *rd, const message *msg) {
 static void *CCp;
 
 struct ReplyWorld : World {
+	ReplyWorld() {
+		// process-global state created on first use (the input metatype registers itself, type tables) comes into being here, outside any run
+		mpt_input_type_traits();
+		input *in = mpt_output_remote(); if (in) { object *o = 0; output *u = 0; in->convert(TypeObjectPtr, &o); in->convert(TypeOutputPtr, &u); in->convert(0, 0); in->unref(); }
+	}
 	const char *name() const override { return "reply"; }
 	const char *const *opnames() const override { return OPS; }
 	const char *const *faultnames() const override { return FAULTS; }
@@ -61,7 +66,7 @@ struct ReplyWorld : World {
 		       "\"stub\":[\"transport = send callback accepting or rejecting per plan\",\"allocator (ledger + n-th allocation fails)\",\"per-request bookkeeping (accepted at most once, id, reply mark)\"]}";
 	}
 	void gen(Rng &r, Plan &p, int tier) override {
-		if (r.chance(1, 3)) { if (r.chance(1, 2)) gen_stream(r, p, tier); else gen_conn(r, p, tier); return; }
+		if (r.chance(1, 3)) { unsigned l = (unsigned) r.below(3); if (l == 0) gen_stream(r, p, tier); else if (l == 1) gen_conn(r, p, tier); else gen_dgram(r, p, tier); return; }
 		p.set("layer", 0);
 		p.set("ctxlen", r.chance(1, 5) ? r.range(9, 20) : r.range(1, 8));
 		int nops = (int) r.range(1, tier ? 80 : 40);
@@ -239,7 +244,7 @@ struct ReplyWorld : World {
 			Op op; unsigned k = (unsigned) r.below(16);
 			op.kind = k < 4 ? OP_REQ : k < 7 ? OP_DELIVER : k < 11 ? OP_SERVE : k < 13 ? OP_FLUSH : k < 15 ? OP_DREPLY2 : OP_SYNC;
 			// a: random bits, b: side | behaviour << 8 | await << 16, c: size / count
-			op.a = (int64_t) r.next(); op.b = r.below(2) | (r.below(6) << 8) | ((r.chance(1, 6) ? 0 : 1) << 16); op.c = r.chance(1, 3) ? 1 : r.chance(1, 2) ? 1000000 : r.range(1, 40);
+			op.a = (int64_t) r.next(); op.b = r.below(2) | (r.below(7) << 8) | ((r.chance(1, 6) ? 0 : 1) << 16); op.c = r.chance(1, 3) ? 1 : r.chance(1, 2) ? 1000000 : r.range(1, 40);
 			if (iof && op.kind == OP_FLUSH && r.chance(1, 2)) { op.fault = r.chance(1, 2) ? FL_SHORT : FL_EAGAIN; op.fa = r.range(1, 5); }
 			if (af && (op.kind == OP_SERVE || op.kind == OP_REQ || op.kind == OP_DREPLY2) && r.chance(1, 4)) { op.fault = FL_ALLOC; op.fa = r.range(1, 5); }
 			p.ops.push_back(op);
@@ -249,7 +254,10 @@ struct ReplyWorld : World {
 		uint32_t serial; int behaviour; bool awaited; uint64_t cid = 0; Bytes payload;
 		bool sent = false, push_failed = false, faulted = false;
 		int handled = 0, callbacks = 0, cancelled = 0;
+		int allowed_handled = 1, allowed_callbacks = 1;   // datagram layer: number of request / reply datagrams delivered
+		int replies_made = 0; bool net_faulted = false;
 		bool late_dropped = false;
+		std::vector<reply_context_detached *> more_late;   // a duplicated request is deferred once per dispatch
 		reply_context_detached *late = 0;    // handle of a deferred answer, held by the peer's handler
 	};
 	struct Peer { const char *name; connection *con = 0; stream *srm = 0; int fd = -1, rchan = -1, wchan = -1; std::vector<CReq> sent; };
@@ -265,14 +273,15 @@ struct ReplyWorld : World {
 		if (!msg) { ++q.cancelled; C.log->ev("    %s: request r%u cancelled", C.peer[side].name, q.serial); return 0; }
 		message m = *msg; size_t len = mpt_message_length(&m); Bytes body(len); mpt_message_read(&m, len, body.data());
 		C.log->ev("    %s: reply for request r%u (id %llx): %zu bytes [%s]", C.peer[side].name, q.serial, (unsigned long long) q.cid, len, hex(body, 16).c_str());
-		if (++q.callbacks > 1) { pend("second-delivery", "requester %s got %d answers for request r%u", C.peer[side].name, q.callbacks, q.serial); return 0; }
+		if (++q.callbacks > q.allowed_callbacks) { pend("second-delivery", "requester %s got %d answers for request r%u", C.peer[side].name, q.callbacks, q.serial); return 0; }
 		if (!q.handled) { pend("wrong-requester", "requester %s got an answer for request r%u which the peer has not seen", C.peer[side].name, q.serial); return 0; }
 		if (q.faulted) return 0;
 		std::string want = answer_text(q);
 		bool text = std::search(body.begin(), body.end(), want.begin(), want.end()) != body.end();
 		// does it carry some other request's answer?
 		for (auto &o : C.peer[side].sent) if (&o != &q) { std::string t = answer_text(o); if (std::search(body.begin(), body.end(), t.begin(), t.end()) != body.end()) { pend("wrong-requester", "answer for request r%u was handed to the callback of r%u", o.serial, q.serial); return 0; } }
-		bool expl = q.behaviour == 1 || q.behaviour == 2 || q.behaviour == 4 || q.behaviour == 5;
+		bool expl = q.behaviour == 1 || q.behaviour == 2 || q.behaviour == 4 || q.behaviour == 5 || q.behaviour == 6;
+		if (q.behaviour == 6 && !q.faulted && len != 2 + 300) { pend("wrong-answer", "long answer to r%u arrived with %zu of 302 bytes", q.serial, len); return 0; }
 		if (expl && !text && !q.late_dropped) { pend("wrong-answer", "answer to r%u (behaviour %d) lacks the responder's text", q.serial, q.behaviour); return 0; }
 		if (!expl) { Bytes w = {(uint8_t) msgtype::Answer, (uint8_t) (q.behaviour == 3 ? -3 : 0)}; if (body != w) pend("wrong-answer", "default answer to r%u is [%s]", q.serial, hex(body, 12).c_str()); }
 		return 0;
@@ -286,7 +295,7 @@ struct ReplyWorld : World {
 		message m = *ev->msg; size_t len = mpt_message_length(&m); Bytes body(len); mpt_message_read(&m, len, body.data());
 		CReq *q = 0; for (auto &r : from.sent) if (r.payload == body) { q = &r; break; }
 		if (!q) { pend("invented", "%s received a request nobody sent (%zu bytes [%s])", C.peer[side].name, len, hex(body, 16).c_str()); return 0; }
-		if (q->handled++) { pend("duplicate-request", "request r%u dispatched twice", q->serial); return 0; }
+		if (q->handled++ >= q->allowed_handled) { pend("duplicate-request", "request r%u dispatched %d times", q->serial, q->handled); return 0; }
 		C.log->ev("    %s: handle request r%u id=%llx behaviour=%d reply-context=%s", C.peer[side].name, q->serial, (unsigned long long) q->cid, q->behaviour, ev->reply ? "yes" : "no");
 		if (q->cid && !ev->reply && g.fired) { q->faulted = true; C.st->hit("probe:no_context_after_allocfail"); return 0; }   // the context could not be allocated: served without answer
 		if ((q->cid != 0) != (ev->reply != 0)) { pend("reply-context", "request r%u with id %llx %s a reply context", q->serial, (unsigned long long) q->cid, ev->reply ? "got" : "did not get"); return 0; }
@@ -296,9 +305,11 @@ struct ReplyWorld : World {
 		case 1: { Reenter s; mpt_context_reply(ev->reply, 0, "%s", t.c_str()); } return 0;
 		case 2: { int r1, r2; { Reenter s; r1 = mpt_context_reply(ev->reply, 0, "%s", t.c_str()); r2 = mpt_context_reply(ev->reply, 1, "%s", "again"); }
 			if (r1 >= 0 && r2 >= 0) pend("second-reply", "two explicit replies to request r%u were both accepted", q->serial); return 0; }
+		case 6: { Bytes b = {(uint8_t) msgtype::Answer, 0}; b.insert(b.end(), t.begin(), t.end()); while (b.size() < 302) b.push_back((uint8_t) ('a' + b.size() % 23));
+			message m; m.base = b.data(); m.used = b.size(); m.cont = 0; m.clen = 0; { Reenter s; ev->reply->reply(&m); } return 0; }
 		case 3: return -3;
 		case 4: case 5: { reply_context_detached *d; { Reenter s; d = ev->reply->defer(); }
-			if (d) { q->late = d; C.st->hit("probe:deferred"); } else { q->behaviour = 0; C.st->hit("probe:defer_refused"); }
+			if (d) { if (q->late) q->more_late.push_back(q->late); q->late = d; C.st->hit("probe:deferred"); } else { q->behaviour = 0; C.st->hit("probe:defer_refused"); }
 			return 0; }
 		default: return 0;
 		}
@@ -359,7 +370,7 @@ struct ReplyWorld : World {
 			log.ev("LATE_REPLY %s r%u%s -> %d%s", C.peer[side].name, q.serial, drop ? " (released unanswered)" : "", r, fired ? " (allocation failed)" : "");
 			if (fired) { st.hit("fault:allocfail_in_late_reply"); q.faulted = true; }
 			if (drop) q.late_dropped = true;
-			if (r >= 0 || drop) q.late = 0;
+			if (r >= 0 || drop) { q.late = 0; if (!q.more_late.empty()) { q.late = q.more_late.back(); q.more_late.pop_back(); } }
 			return r;
 		};
 		for (const Op &op : p.ops) {
@@ -369,7 +380,7 @@ struct ReplyWorld : World {
 			switch (op.kind) {
 			case OP_REQ: {
 				if (P.sent.size() >= 10) break;
-				CReq q; q.serial = serial++; q.behaviour = (int) ((op.b >> 8) & 0xff) % 6; q.awaited = (op.b >> 16) & 1;
+				CReq q; q.serial = serial++; q.behaviour = (int) ((op.b >> 8) & 0xff) % 7; q.awaited = (op.b >> 16) & 1;
 				q.payload = {0x08, 0x00}; for (int k = 0; k < 4; ++k) q.payload.push_back((uint8_t) (q.serial >> (8 * k)));
 				size_t extra = (size_t) op.c % 40; for (size_t k = 0; k < extra; ++k) q.payload.push_back((uint8_t) (op.a >> (k % 8)));
 				P.sent.push_back(q); CReq &Q = P.sent.back(); size_t idx = P.sent.size() - 1;
@@ -445,6 +456,203 @@ struct ReplyWorld : World {
 		if (ledger_live()) fail("leak", "%zu block(s) allocated after both connections were finished: %s", ledger_live(), ledger_describe().c_str());
 	}
 
+	// ---- layer L3: two real mpt_output_remote objects on a simulated datagram socket pair (loss, duplication, reordering)
+	void gen_dgram(Rng &r, Plan &p, int tier) {
+		p.set("layer", 3);
+		p.set("idlen", r.range(1, 4));
+		int nops = (int) r.range(1, tier ? 80 : 40); bool net = r.chance(2, 3), af = r.chance(1, 3);
+		for (int i = 0; i < nops; ++i) {
+			Op op; unsigned k = (unsigned) r.below(16);
+			op.kind = k < 4 ? OP_REQ : k < 8 ? OP_DELIVER : k < 12 ? OP_SERVE : k < 14 ? OP_DREPLY2 : k < 15 ? OP_SYNC : OP_FLUSH;
+			op.a = (int64_t) r.next(); op.b = r.below(2) | (r.below(7) << 8) | ((r.chance(1, 6) ? 0 : 1) << 16); op.c = r.chance(1, 2) ? 0 : r.range(0, 5);
+			if (net && op.kind == OP_DELIVER && r.chance(1, 3)) { op.fault = r.chance(1, 2) ? FL_DROP : FL_DUP; }
+			if (net && op.kind == OP_REQ && r.chance(1, 8)) { op.fault = FL_SENDFAIL; }
+			if (af && !op.fault && (op.kind == OP_SERVE || op.kind == OP_REQ || op.kind == OP_DREPLY2) && r.chance(1, 4)) { op.fault = FL_ALLOC; op.fa = r.range(1, 5); }
+			p.ops.push_back(op);
+		}
+	}
+	struct SockSource : convertable {
+		int fd;
+		int convert(type_t t, void *ptr) override { if (t == TypeUnixSocket) { if (ptr) *(int *) ptr = fd; return TypeUnixSocket; } return BadType; }
+	};
+	struct DPeer { input *in = 0; object *obj = 0; output *out = 0; connection *con = 0; int fd = -1, rchan = -1, wchan = -1; };
+	void exec_dgram(const Plan &p, Log &log, Stats &st) {
+		ConnCtx C; C.log = &log; C.st = &st; CCp = &C;
+		unsigned idlen = C.idlen = (unsigned) std::min<int64_t>(std::max<int64_t>(p.get("idlen", 2), 1), 8);
+		int ab = simio::new_dchan(), ba = simio::new_dchan();
+		DPeer D[2];
+		C.peer[0].name = "A"; C.peer[1].name = "B";
+		for (int i = 0; i < 2; ++i) {
+			DPeer &P = D[i]; P.rchan = i ? ab : ba; P.wchan = i ? ba : ab;
+			int fd0 = simio::new_dgram_fd(P.rchan, P.wchan);
+			{ Sut s; P.in = mpt_output_remote(); }
+			if (!P.in) fail("setup", "mpt_output_remote failed");
+			{ Sut s; P.in->convert(TypeObjectPtr, &P.obj); P.in->convert(TypeOutputPtr, &P.out); }
+			if (!P.obj || !P.out) fail("setup", "remote output does not convert to object and output");
+			SockSource src; src.fd = fd0; int rc; { Sut s; rc = P.obj->set_property(0, &src); }
+			if (rc < 0) fail("setup", "assigning the datagram socket failed (%d)", rc);
+			{ Sut s; close(fd0); }          // the connection works on its own duplicate
+			// the connection lives behind the four interface pointers and the reference count of the private out_data
+			P.con = (connection *) ((char *) P.in + 4 * sizeof(void *) + sizeof(uintptr_t));
+			P.fd = P.con->out.sock._id;
+			simio::Fd *f = simio::get(P.fd);
+			if (!f || !f->dgram || !f->open) fail("setup", "connection of the remote output is not where the harness expects it (socket %d)", P.fd);
+			P.con->out._idlen = (uint8_t) idlen;      // no public setter exists for the id width of a connection
+		}
+		log.ev("reply L3 idlen=%u (datagram sockets)", idlen);
+		st.hit("layer:L3");
+		uint32_t serial = 1;
+		auto snapshot = [&](int s) { std::vector<int> v; for (auto &r : C.peer[s].sent) v.push_back(r.handled); return v; };
+		auto mark_faulted = [&](const std::vector<int> &b0, const std::vector<int> &b1) {
+			for (int s = 0; s < 2; ++s) { const std::vector<int> &b = s ? b1 : b0; for (size_t k = 0; k < C.peer[s].sent.size(); ++k) if (C.peer[s].sent[k].handled > (k < b.size() ? b[k] : 0)) C.peer[s].sent[k].faulted = true; }
+		};
+		// classify a datagram sent by `side`: reply to a request of the other side, or one of side's own requests
+		auto classify = [&](int side, const Bytes &d, bool &reply) -> CReq * {
+			reply = false;
+			if (d.size() < idlen) return 0;
+			uint64_t id = d[0] & 0x7f; for (unsigned k = 1; k < idlen; ++k) id = (id << 8) | d[k];
+			if (d[0] & 0x80) { reply = true; CReq *q = 0; for (auto &r : C.peer[side ^ 1].sent) if (r.cid == id && r.cid) q = &r; return q; }
+			Bytes body(d.begin() + idlen, d.end());
+			for (auto &r : C.peer[side].sent) if (r.payload == body) return &r;
+			return 0;
+		};
+		size_t seen_sent[2] = {0, 0};
+		// everything a side has put on the wire since the last look must be one of its requests or exactly one reply per dispatch
+		auto audit_wire = [&](int side) {
+			simio::DChan *c = simio::dchan(D[side].wchan);
+			while (seen_sent[side] < c->sent) {
+				size_t back = (size_t) (c->sent - seen_sent[side]);      // new datagrams are the last `back` of the in-flight list
+				if (back > c->wire.size()) fail("harness", "datagram bookkeeping lost track");
+				const Bytes &d = c->wire[c->wire.size() - back]; ++seen_sent[side];
+				bool reply; CReq *q = classify(side, d, reply);
+				if (!reply) { if (!q) fail("invented", "%s sent a datagram that is neither a reply nor one of its requests (%zu bytes [%s])", C.peer[side].name, d.size(), hex(d, 16).c_str()); continue; }
+				if (!q) fail("foreign-id", "%s sent a reply whose id no request of the peer carries [%s]", C.peer[side].name, hex(d, 12).c_str());
+				if (++q->replies_made > q->handled) fail("second-reply", "request r%u was dispatched %d time(s) but %d replies went out", q->serial, q->handled, q->replies_made);
+			}
+		};
+		auto serve = [&](int side, int64_t failn) -> int {
+			DPeer &P = D[side]; int d = 0;
+			for (int guard = 0; guard < 16; ++guard) {
+				int n; { Sut s; n = P.in->next(POLLIN); }
+				if (!(P.con->out.state & 0x20 /* received */) && n <= 0 && simio::dchan(P.rchan)->avail.empty()) break;
+				std::vector<int> b0 = snapshot(0), b1 = snapshot(1);
+				bool fired; { Sut s(failn); SUT_GUARD_ABORT(d = P.in->dispatch(conn_handler, (void *) (uintptr_t) side)); fired = g.fired; }
+				check_pending();
+				if (fired) { st.hit("fault:allocfail_in_dispatch"); failn = 0; mark_faulted(b0, b1); }
+				log.ev("SERVE %s next=%d dispatch=%d", C.peer[side].name, n, d);
+				audit_wire(side);
+				if (d < 0) break;
+			}
+			return d;
+		};
+		auto late_reply = [&](int side, CReq &q, int64_t failn, bool drop) {
+			std::string t = answer_text(q); Bytes b = {(uint8_t) msgtype::Answer, 0}; b.insert(b.end(), t.begin(), t.end());
+			message m; m.base = b.data(); m.used = b.size(); m.cont = 0; m.clen = 0;
+			int r; bool fired; { Sut s(failn); SUT_GUARD_ABORT(r = q.late->reply(drop ? 0 : &m)); fired = g.fired; }
+			check_pending();
+			log.ev("LATE_REPLY %s r%u%s -> %d%s", C.peer[side].name, q.serial, drop ? " (released unanswered)" : "", r, fired ? " (allocation failed)" : "");
+			if (fired) { st.hit("fault:allocfail_in_late_reply"); q.faulted = true; }
+			if (drop) q.late_dropped = true;
+			if (r >= 0 || drop) { q.late = 0; if (!q.more_late.empty()) { q.late = q.more_late.back(); q.more_late.pop_back(); } }
+			audit_wire(side);
+			return r;
+		};
+		auto deliver = [&](int side, size_t idx, int fault) -> bool {
+			simio::DChan *c = simio::dchan(D[side].wchan);
+			if (c->wire.empty()) return false;
+			idx %= c->wire.size();
+			bool reply; CReq *q = classify(side, c->wire[idx], reply);
+			if (idx) st.hit("fault:reordered");
+			if (fault == FL_DROP) { simio::ddrop(D[side].wchan, idx); st.hit("fault:datagram_lost"); if (q) q->net_faulted = true; log.ev("LOSE datagram %zu from %s (%s r%u)", idx, C.peer[side].name, reply ? "reply" : "request", q ? q->serial : 0); return true; }
+			if (fault == FL_DUP) { simio::ddup(D[side].wchan, idx); ++seen_sent[side]; ++simio::dchan(D[side].wchan)->sent; st.hit("fault:datagram_duplicated"); if (q) q->net_faulted = true; log.ev("DUPLICATE datagram %zu from %s", idx, C.peer[side].name); return true; }
+			if (q) { if (reply) ++q->allowed_callbacks; else ++q->allowed_handled; }
+			simio::ddeliver(D[side].wchan, idx);
+			log.ev("DELIVER datagram %zu from %s (%s r%u)", idx, C.peer[side].name, reply ? "reply" : "request", q ? q->serial : 0);
+			return true;
+		};
+		for (const Op &op : p.ops) {
+			st.hit(std::string("op:") + OPS[op.kind]);
+			int side = (int) (op.b & 1), outcome = 0; DPeer &P = D[side]; Peer &Q = C.peer[side];
+			int64_t failn = op.fault == FL_ALLOC ? std::max<int64_t>(op.fa, 1) : 0;
+			switch (op.kind) {
+			case OP_REQ: {
+				if (Q.sent.size() >= 10) break;
+				CReq q; q.serial = serial++; q.behaviour = (int) ((op.b >> 8) & 0xff) % 7; q.awaited = (op.b >> 16) & 1; q.allowed_handled = 0; q.allowed_callbacks = 0;
+				q.payload = {0x08, 0x00}; for (int k = 0; k < 4; ++k) q.payload.push_back((uint8_t) (q.serial >> (8 * k)));
+				size_t extra = (size_t) ((uint64_t) op.a >> 3) % 40; for (size_t k = 0; k < extra; ++k) q.payload.push_back((uint8_t) (op.a >> (k % 8)));
+				Q.sent.push_back(q); CReq &R = Q.sent.back(); size_t idx = Q.sent.size() - 1;
+				if (op.fault == FL_SENDFAIL) { simio::get(P.fd)->wfault = simio::F_EPIPE; st.hit("fault:send_refused"); }
+				bool fired = false; int ar = 0; ssize_t r = 0;
+				{ Sut s(failn);
+				  if (R.awaited) { SUT_GUARD_ABORT(ar = P.out->await(conn_reply_cb, (void *) (uintptr_t) ((side << 16) | (idx + 1)))); }
+				  if (ar >= 0) {
+					R.cid = P.con->cid;
+					size_t cut = (op.a & 1) ? R.payload.size() / 2 : R.payload.size();
+					SUT_GUARD_ABORT(r = P.out->push(cut, R.payload.data()));
+					if (r >= 0 && cut < R.payload.size()) { SUT_GUARD_ABORT(r = P.out->push(R.payload.size() - cut, R.payload.data() + cut)); }
+					if (r >= 0) { SUT_GUARD_ABORT(r = P.out->push(0, 0)); }
+					if (r < 0) R.push_failed = true; else R.sent = true;
+				  } else R.push_failed = true;
+				  fired = g.fired; }
+				simio::get(P.fd)->wfault = 0;
+				check_pending();
+				if (fired) { st.hit("fault:allocfail_in_request"); R.faulted = true; }
+				if (R.push_failed && !fired && op.fault != FL_SENDFAIL) st.hit("probe:send_refused_without_fault");    // refusing is safe; the statement does not demand progress here
+				if (R.push_failed) { SUT_GUARD_ABORT(P.out->push(1, 0)); }     // what a caller does after a failed send: drop the partial message
+				log.ev("REQUEST %s r%u id=%llx behaviour=%d %s payload=%zu -> %s", Q.name, R.serial, (unsigned long long) R.cid, R.behaviour, R.awaited ? "awaited" : "one-way", R.payload.size(), R.sent ? "sent" : "failed");
+				if (R.awaited && R.sent && !R.cid) fail("no-id", "awaited request r%u was sent without an id", R.serial);
+				audit_wire(side);
+				outcome = R.sent;
+				break;
+			}
+			case OP_DELIVER: outcome = deliver(side, (size_t) op.c, op.fault); break;
+			case OP_SERVE: outcome = serve(side, failn) >= 0; break;
+			case OP_FLUSH: { int n; { Sut s; n = P.in->next(POLLOUT); } log.ev("FLUSH %s -> %d", Q.name, n); audit_wire(side); outcome = 1; break; }
+			case OP_DREPLY2: {
+				std::vector<CReq *> pendg; for (auto &r : C.peer[side ^ 1].sent) if (r.late) pendg.push_back(&r);
+				if (pendg.empty()) break;
+				CReq &q = *pendg[(size_t) ((uint64_t) op.a >> 8) % pendg.size()];
+				outcome = late_reply(side, q, failn, q.behaviour == 5 && (op.a & 2)) >= 0;
+				break;
+			}
+			case OP_SYNC: {
+				int r; { Sut s; SUT_GUARD_ABORT(r = P.out->sync(0)); }
+				check_pending();
+				log.ev("SYNC %s -> %d", Q.name, r); outcome = r >= 0; st.hit("probe:sync");
+				audit_wire(side);
+				break;
+			}
+			}
+			st.state(800 + op.kind, (int) std::min<size_t>(C.peer[0].sent.size() + C.peer[1].sent.size(), 3) * 4 + (op.fault ? 2 : 0) + side, outcome);
+		}
+		// drain: the network delivers what is still in flight, in order, and loses nothing more
+		for (int round = 0; round < 200; ++round) {
+			bool moved = false;
+			for (int s = 0; s < 2; ++s) {
+				while (!simio::dchan(D[s].wchan)->wire.empty()) { deliver(s, 0, 0); moved = true; }
+			}
+			for (int s = 0; s < 2; ++s) {
+				size_t before = simio::dchan(D[s].rchan)->received;
+				serve(s, 0);
+				for (auto &r : C.peer[s ^ 1].sent) if (r.late) { late_reply(s, r, 0, false); moved = true; }
+				if (simio::dchan(D[s].rchan)->received != before) moved = true;
+			}
+			for (int s = 0; s < 2; ++s) if (!simio::dchan(D[s].wchan)->wire.empty() || !simio::dchan(D[s].rchan)->avail.empty()) moved = true;
+			if (!moved) break;
+		}
+		for (int s = 0; s < 2; ++s) for (auto &q : C.peer[s].sent) {
+			if (!q.sent || q.faulted || q.net_faulted) continue;
+			if (q.handled != 1) fail("request-lost", "request r%u of %s reached the peer once but was dispatched %d times", q.serial, C.peer[s].name, q.handled);
+			if (q.awaited && q.replies_made != 1) fail("no-reply", "awaited request r%u of %s (behaviour %d) was dispatched but %d replies went out", q.serial, C.peer[s].name, q.behaviour, q.replies_made);
+			if (q.awaited && q.callbacks != 1) fail("no-reply", "awaited request r%u of %s (behaviour %d): the reply was delivered but the callback ran %d times", q.serial, C.peer[s].name, q.behaviour, q.callbacks);
+			if (!q.awaited && (q.callbacks || q.replies_made)) fail("wrong-requester", "one-way request r%u got an answer", q.serial);
+		}
+		for (int s = 0; s < 2; ++s) { Sut su; D[s].in->unref(); }
+		check_pending();
+		CCp = 0;
+		if (ledger_live()) fail("leak", "%zu block(s) allocated after both remote outputs were released: %s", ledger_live(), ledger_describe().c_str());
+	}
+
 	static uint64_t pick_id(int64_t bits, unsigned w, unsigned sel) {
 		uint64_t lim = w == 0 ? 0 : (w >= 8 ? 0x7fffffffffffffffull : ((1ull << (8 * w - 1)) - 1)); // largest id that fits w bytes with the mark bit clear
 		switch (sel) {
@@ -456,6 +664,7 @@ struct ReplyWorld : World {
 		}
 	}
 	void exec(const Plan &p, Log &log, Stats &st) override {
+		if (p.get("layer") == 3) { exec_dgram(p, log, st); return; }
 		if (p.get("layer") == 2) { exec_conn(p, log, st); return; }
 		if (p.get("layer")) { exec_stream(p, log, st); return; }
 		Transport T; T.log = &log; T.st = &st; TR = &T;
